@@ -61,13 +61,16 @@ def reflect (S r : V3 K) : V3 K :=
   V3.sub S (V3.smul (2 * (V3.dot S r / V3.dot r r)) r)
 
 /-- vector form of Snell's law for a normal `r` of ANY non-zero length (`μ = n/n'`, `ρ = r·r`,
-`c = r·S`):  `S' = (√(ρ − μ²(ρ − c²)) / ρ) r + μ (S − (c/ρ) r)`.  With `ρ = 1` this is Spencer & Murty's
+`c = r·S`):  `S' = (±√(ρ − μ²(ρ − c²)) / ρ) r + μ (S − (c/ρ) r)`, the sign being that of `c`.  With `ρ = 1` this is Spencer & Murty's
 formula `√(1 − μ²(1 − cos²I)) r + μ (S − cos I · r)`. -/
-def refract (sqrt : K → K) (n n' : K) (S r : V3 K) : V3 K :=
+def refract (sqrt : K → K) (lt : K → K → Bool) (n n' : K) (S r : V3 K) : V3 K :=
   let mu := n / n'
   let rho := V3.dot r r
   let c := V3.dot r S
-  V3.add (V3.smul (sqrt (rho - mu * mu * (rho - c * c)) / rho) r)
+  let σ := sqrt (rho - mu * mu * (rho - c * c))
+  -- the root carries the sign of `r·S`: the refracted ray continues through the surface whichever way it is crossed
+  let σ' := if lt c 0 then -σ else σ
+  V3.add (V3.smul (σ' / rho) r)
          (V3.smul mu (V3.sub S (V3.smul (c / rho) r)))
 
 /-- Spencer & Murty's formula as printed, valid for a UNIT normal only -/
@@ -217,7 +220,7 @@ def traceOne (sqrt : K → K) (lt : K → K → Bool) (eps : K) (maxiter : Nat)
   | some (Pj, r) =>
       let (S1, n1) := match sf.kind with
         | .reflect => (reflect S0 r, n)
-        | .refract => (refract sqrt n sf.n S0 r, sf.n)
+        | .refract => (refract sqrt lt n sf.n S0 r, sf.n)
         | .eval => (S0, n)
       some ⟨toGlobalP sf.P sf.R Pj, toGlobalS sf.R S1, n1, Pj, S0, r, S1⟩
 
